@@ -1,6 +1,7 @@
 """C02 — Find_Root (Ridder's method): root of a bracketed function to the requested accuracy.
 Case grammar:  root|both  a b acc  fam np p1..pnp  <fexpr>        (both: Find_Root(a,b) and then Find_Root(b,a))
-               seq k  (a b acc fam np p1..pnp <fexpr>) x k          (k requests served one after the other by one process)
+               seq k  (a b acc fam np p1..pnp <fexpr>) x k          (k requests served one after the other by one process; tags meta-fscale / meta-xscale:
+                                                                     the later requests are images of the first under scaling of f / of the unit of x)
 Output per call: result, warning flag, number of evaluations, the abscissae in call order; EXIT when the process is terminated."""
 import math
 from vcheck import Case, hx, tokf
@@ -8,7 +9,7 @@ from vcheck import Case, hx, tokf
 PID = "C02"
 EPS = 2.0 ** -53
 RULE = ("one case = one call Find_Root(f,a,b,acc) (op both: the two orders of the bracket ends; op seq: a history of 2-5 requests served by one "
-        "process, judged by its first request); non-trivial = at least 3 Ridder "
+        "process — repeated, interleaved, narrowed requests, and pairs (request, the same with the function multiplied by +-2^j or with x in units of 2^-j) — judged by its first request); non-trivial = at least 3 Ridder "
         "iterations with at least 2 different re-bracketing cases taken (deduced from the evaluation trace: the next midpoint "
         "identifies which of the three re-bracketing branches ran); distinct by case text")
 LEVEL_TEXT = ("Theorems (Coq, over the reals, for an arbitrary objective function f unless stated): the result does not depend on the order of "
@@ -18,8 +19,16 @@ LEVEL_TEXT = ("Theorems (Coq, over the reals, for an arbitrary objective functio
               "a bracket end that is a zero is returned as is; no sign change exits; NaN at an end exits (abstract instance); linear functions "
               "are solved exactly by the first Ridder point; ACCURACY at full strength: every returned x is an exact zero of f, or an end of a "
               "bracket [u,v] with f(u)f(v)<0 and v-u < acc, or (iteration-limit return, 2200 iterations) an end of such a bracket of width <= 2^-2200 of the original; "
-              "with the IVT, a continuous f has a zero within acc (resp. 2^-2200 of the width) of x; Ridder's point lies strictly inside the bracket, so the clamp the code applies to it is the identity in exact arithmetic; the end test Sign(fl)*Sign(fr) >= 0 is fl*fr >= 0 and the scaled step (function values divided by the largest of the three magnitudes) is Ridder's step (step_eq); the iteration limit is reached only from a bracket at least acc*2^2200 wide, hence for no bracket (width <= 2^1025) and accuracy (>= 2^-1074) that doubles can express; on every instance of the number interface (IEEE doubles with an infinite value at the other end included) a zero end is returned as is when neither end value is NaN; a history of requests served by one process is answered request by request as if each were the only one, up to the first exit; NaN at one end takes precedence over an exact zero (+0 or -0) at the other end, in either position and on every instance, and ends the history the request belongs to. Not theorems: statements about IEEE rounding "
-              "(on doubles the clamp is active when rounding pushes Ridder's point past a bracket end; function values from 1e-300 to 1e300, brackets wider than the largest double, brackets of up to 630 decades with subnormal to 1e300 roots and accuracies down to 1e-14*|root| (up to ~2100 iterations), end values that overflow to +-inf, brackets a few ulps wide, histories of several requests in one process, midpoints that are exact roots, and the matrix of end-value kinds (NaN beyond a domain limit or exactly at it, at the lower or upper end, against an exact zero of value +0 or -0, tiny / ordinary / infinite values of either sign or NaN; zeros at both ends; NaN abscissae) as single requests and inside histories are generated; K-C02-3, the overflow of x1+x2 in the midpoint for sign changes beyond DBL_MAX - |far end|, is a known finding): covered by running the extracted "
+              "with the IVT, a continuous f has a zero within acc (resp. 2^-2200 of the width) of x; Ridder's point lies strictly inside the bracket, so the clamp the code applies to it is the identity in exact arithmetic; the end test Sign(fl)*Sign(fr) >= 0 is fl*fr >= 0 and the scaled step (function values divided by the largest of the three magnitudes) is Ridder's step (step_eq); the iteration limit is reached only from a bracket at least acc*2^2200 wide, hence for no bracket (width <= 2^1025) and accuracy (>= 2^-1074) that doubles can express; on every instance of the number interface (IEEE doubles with an infinite value at the other end included) a zero end is returned as is when neither end value is NaN; a history of requests served by one process is answered request by request as if each were the only one, up to the first exit; NaN at one end takes precedence over an exact zero (+0 or -0) at the other end, in either position and on every instance, and ends the history the request belongs to; COST (C02_evaluation_count, every function, every n from 1 to 2200): a bracket narrower than acc*2^n is answered after at most 2+2n "
+              "evaluations and not through the iteration limit (Ridder's iteration cannot creep); SCALING (C02_scale_invariant): multiplying the objective function by any non-zero constant, "
+              "negative ones included, changes neither the outcome nor one evaluation abscissa; UNIT OF x (C02_x_scale_covariant): f(x/c) on [c a, c b] with accuracy c acc, c > 0, is answered by c times "
+              "the answer through c times every abscissa; CLAMP ON EVERY ORDERED INSTANCE (C02_ridder_point_clamped_any_instance, only the order laws, no law of arithmetic, so rounding included): "
+              "each pass evaluates exactly two abscissae and the second (Ridder's point after the clamp) lies in [min(x1,x2),max(x1,x2)] of the current state. "
+              "Not theorems: statements about IEEE rounding (the midpoint of a pass being inside the bracket on doubles is tested, not proved; the cost bound on doubles is tested with 0.9 acc for acc, "
+              "for accuracies of at least 40 spacings of doubles; the two scaling relations are tested on doubles with powers of two, where they are exact, on the values actually met; the stopping test is "
+              "aimed at from both sides — accuracy on a ladder of ulps and relative distances around the width of a pre-computed intermediate bracket, step-like atan/tanh/erf transitions down to "
+              "1e-20 spacings wide placed at the far end of that bracket, all scales; "
+              "on doubles the clamp is active when rounding pushes Ridder's point past a bracket end; function values from 1e-300 to 1e300, brackets wider than the largest double, brackets of up to 630 decades with subnormal to 1e300 roots and accuracies down to 1e-14*|root| (up to ~2100 iterations), end values that overflow to +-inf, brackets a few ulps wide, histories of several requests in one process, midpoints that are exact roots, and the matrix of end-value kinds (NaN beyond a domain limit or exactly at it, at the lower or upper end, against an exact zero of value +0 or -0, tiny / ordinary / infinite values of either sign or NaN; zeros at both ends; NaN abscissae) as single requests and inside histories are generated; sign changes beyond DBL_MAX - |far end|, where the sum x1+x2 of an earlier version of the midpoint overflowed (F44, fixed: the ends are halved first), are generated): covered by running the extracted "
               "model against the C++ code on every run (result, warning flag, full evaluation trace, bit for bit) and by evaluating every clause on "
               "the implementation's output (S4).")
 LEVEL_NOTE = ("Coq 8.16.1 kernel; standard-library real-number axioms (listed in the evidence); nan_end_exits is axiom-free. Hand-written model tied by "
@@ -573,6 +582,169 @@ def gen_end_matrix(rng, n):
     return cs
 
 
+
+# ---------------------------------------------------------------- fourth pass: the boundary of the stopping test
+def ridder_sim(f, lo, hi, maxit=120):
+    """the brackets Ridder's iteration goes through on [lo,hi] when no accuracy stops it (generator-side aiming device, not a reference
+    for any predicate): list of (end that is the new point x4, the other end) after each re-bracketing"""
+    out = []
+    x1, x2 = lo, hi; f1, f2 = f(lo), f(hi)
+    if f1 != f1 or f2 != f2 or sgn(f1) * sgn(f2) >= 0: return out
+    for _ in range(maxit):
+        x3 = 0.5 * x1 + 0.5 * x2; f3 = f(x3)
+        try:
+            sc = max(abs(f3), abs(f1), abs(f2)); g1, g2, g3 = f1 / sc, f2 / sc, f3 / sc
+            x4 = x3 + (x3 - x1) * sgn(g1 - g2) * g3 / math.sqrt(g3 * g3 - g1 * g2)
+        except (ZeroDivisionError, ValueError, OverflowError): x4 = x3
+        if x4 != x4: x4 = x3
+        x4 = max(min(x1, x2), min(max(x1, x2), x4))
+        f4 = f(x4)
+        if f4 == 0 or f4 != f4 or f3 != f3: break
+        if sgn(f3) != sgn(f4): x1, f1, x2, f2 = x3, f3, x4, f4; e = x3
+        elif sgn(f1) != sgn(f4): x2, f2 = x4, f4; e = x1
+        else: x1, f1 = x4, f4; e = x2
+        if e == x4: break
+        out.append((x4, e))
+        if math.nextafter(x4, e) == e: break
+    return out
+
+
+def boundary_accs(rng, x4, e, floor_):
+    """accuracies on both sides of the stopping test |x2 - x1| < acc for the bracket (x4,e): the width itself, the width moved by a ladder
+    of units in the last place of the ends (the granularity with which a sign change can be placed in the bracket) and by a geometric
+    ladder of relative distances; never below the quantifier's lower limit floor_"""
+    w = abs(e - x4); u = max(math.ulp(e), math.ulp(x4))
+    r = rng.random()
+    if r < 0.45: j = rng.choice([1, 1, 2, 3, 4, 5, 6, 8, 12, 16, 32, 100, 1000]); acc = w - j * u
+    elif r < 0.55: j = 0; acc = w
+    elif r < 0.7: j = -rng.choice([1, 2, 4, 16, 1000]); acc = w - j * u
+    else:
+        d = rng.choice([-1, 1, 1]) * 10 ** rng.uniform(-15, -1); acc = w * (1 - d); j = (w - acc) / u
+    if not (acc > 0) or acc < floor_: return None, 0
+    return acc, j
+
+
+def steep_fx(kind, K, c, t):
+    g = f"{kind} * {C(K)} - x {C(c)}"
+    return g if t == 0.0 else f"- {g} {C(t)}"
+
+
+def gen_stop_boundary(rng, n, n_smooth):
+    """requests aimed at the stopping test: (1) saturating / step-like functions atan, tanh, erf of K (x - c) whose transition is from a few
+    accuracies wide down to far narrower than the spacing of doubles, at every scale of c (0, +-1e-300 .. +-1e300) and on brackets from a few
+    accuracies to many decades wide; the brackets of the iteration are pre-computed, one of them (preferably of a width near the lower end of
+    the accuracy range, 1e-14 |root|) is chosen, the transition is placed at its far end (seen from the point that would be returned; a ladder
+    of units in the last place inside it) and the accuracy on either side of its width (ladder of ulps and of relative distances 1e-15 .. 1e-1):
+    the worst case for 'the function changes sign within the accuracy of the returned point'.  (2) the same aiming of the accuracy at the
+    width of an intermediate bracket for the smooth families.  (3) unaimed steep requests at the lowest accuracy."""
+    cs = []
+    for k in range(n):
+        kind = rng.choice(["atan", "atan", "tanh", "erf"])
+        sg = rng.choice([-1.0, 1.0])
+        c0 = rng.choice([0.0, sg * rng.uniform(0.5, 20), sg * rng.uniform(1.0, 2.0), sg * p10(rng.uniform(-300, 300)), sg * p10(rng.uniform(-6, 6))])
+        s = abs(c0) if c0 != 0 else p10(rng.uniform(-300, 300))
+        q = rng.random()
+        if q < 0.3 and c0 != 0: lo, hi = (0.0, c0 + s * 10 ** rng.uniform(-3, 3)) if c0 > 0 else (c0 - s * 10 ** rng.uniform(-3, 3), 0.0)
+        elif q < 0.5: lo, hi = c0 - s * 10 ** rng.uniform(-12, -1), c0 + s * 10 ** rng.uniform(-12, -1)
+        else: lo, hi = c0 - s * 10 ** rng.uniform(-3, 6), c0 + s * 10 ** rng.uniform(-3, 6)
+        if not (math.isfinite(lo) and math.isfinite(hi) and lo < c0 < hi): continue
+        floor0 = 1e-14 * abs(c0) if c0 != 0 else 1e-14 * (hi - lo)
+        # steepness: transition width 1/K from ~100 accuracies down to 1e-20 of the spacing of doubles (fully saturated: +-pi/2, +-1 at every double but c)
+        K = rng.choice([10 ** rng.uniform(-2, 3), 10 ** rng.uniform(3, 8), 10 ** rng.uniform(17, 22), 10 ** rng.uniform(17, 22)]) / max(floor0, 1e-300)
+        if not (K < 1e300): K = 1e300
+        t = 0.0 if rng.random() < 0.8 else rng.uniform(-0.5, 0.5)
+        c = c0; pick = None
+        for _round in range(2):      # place the transition, then once more on the brackets of the placed function (identical when saturated)
+            f, _ = parse_fexpr(steep_fx(kind, K, c, t).split(), 0)
+            br = ridder_sim(f, lo, hi)
+            cand = [(x4, e) for (x4, e) in br if abs(e - x4) >= floor0 and math.nextafter(x4, e) != e]
+            if not cand: pick = None; break
+            low = [p for p in cand if abs(p[1] - p[0]) <= 30 * floor0]
+            pick = rng.choice(low) if low and rng.random() < 0.7 else rng.choice(cand)
+            x4, e = pick
+            i = rng.choice([1, 1, 1, 2, 3, 5, 10, 100])
+            cn = e + i * math.ulp(e) * (1.0 if x4 > e else -1.0)
+            if rng.random() < 0.15: cn = e + (x4 - e) * 10 ** rng.uniform(-6, -0.5)
+            if not (min(x4, e) < cn < max(x4, e)): cn = math.nextafter(e, x4)
+            if not (min(x4, e) < cn < max(x4, e)) or not (lo < cn < hi): pick = None; break
+            c = cn
+        if pick is None: continue
+        x4, e = pick
+        acc, j = boundary_accs(rng, x4, e, 1e-14 * abs(c) if c != 0 else floor0)
+        if acc is None or acc > hi - lo: continue
+        a, b = (lo, hi) if rng.random() < 0.5 else (hi, lo)
+        op = "root" if k % 5 else "both"
+        side = "loose" if j > 0 else ("exact" if j == 0 else "tight")
+        if k % 11 == 10:      # as a member of a history
+            X = req_text(a, b, acc, "steep-" + kind, [K, c, t], steep_fx(kind, K, c, t)); Y = req_text(b, a, min(hi - lo, acc * 4), "steep-" + kind, [K, c, t], steep_fx(kind, K, c, t))
+            cs.append(Case(f"seq 3 {X} {Y} {X}", ("seq", "stop-boundary", "steep", side)))
+        else:
+            cs.append(Case(line(op, a, b, acc, "steep-" + kind, [K, c, t], steep_fx(kind, K, c, t)), (op, "stop-boundary", "steep", side)))
+    # (2) smooth families, accuracy at the width of an intermediate bracket
+    fams = [fam_powlaw, fam_poly, fam_saturating, fam_misc, fam_linear, fam_pwl]
+    for k in range(n_smooth):
+        a, b, root, name, params, fx = rng.choice(fams)(rng)
+        if not (a < b) or not all(math.isfinite(v) for v in [a, b] + list(params)): continue
+        f, _ = parse_fexpr(fx.split(), 0)
+        floor_ = 1e-14 * abs(root) if root != 0 else 1e-14 * (b - a)
+        cand = [(x4, e) for (x4, e) in ridder_sim(f, a, b) if abs(e - x4) >= floor_]
+        if not cand: continue
+        x4, e = rng.choice(cand)
+        acc, j = boundary_accs(rng, x4, e, floor_)
+        if acc is None or acc > b - a: continue
+        if rng.random() < 0.5: a, b = b, a
+        op = "root" if k % 5 else "both"
+        cs.append(Case(line(op, a, b, acc, name, params, fx), (op, "stop-boundary", "smooth", "loose" if j > 0 else ("exact" if j == 0 else "tight"))))
+    # (3) unaimed: steep transitions anywhere in the bracket, the lowest accuracies
+    for k in range(n_smooth):
+        kind = rng.choice(["atan", "tanh", "erf"]); c = rng.choice([-1, 1]) * rng.choice([rng.uniform(1, 2), p10(rng.uniform(-300, 300))])
+        acc = 1e-14 * abs(c) * rng.choice([1.0, 1.0, 1.0 + 10 ** rng.uniform(-6, 0), 3.0])
+        K = rng.choice([1, 2, 4, 8, 16, 32, 64, 10 ** rng.uniform(2, 20)]) * 4.0 / acc
+        if not (K < 1e300): continue
+        lo, hi = rng.choice([(0.0, c * rng.uniform(2, 10)), (c - abs(c) * rng.uniform(0.01, 3), c + abs(c) * rng.uniform(0.01, 3))])
+        lo, hi = min(lo, hi), max(lo, hi)
+        if not (math.isfinite(lo) and math.isfinite(hi) and lo < c < hi): continue
+        if rng.random() < 0.5: lo, hi = hi, lo
+        cs.append(Case(line("root", lo, hi, acc, "steep-" + kind, [K, c, 0.0], steep_fx(kind, K, c, 0.0)), ("root", "steep", "unaimed")))
+    return cs
+
+
+
+# ---------------------------------------------------------------- fifth pass: the relations proved as C02_scale_invariant / C02_x_scale_covariant
+SAFE_LO, SAFE_HI = 2.0 ** -900, 2.0 ** 900
+def safe_mag(v): return v == 0 or SAFE_LO <= abs(v) <= SAFE_HI
+
+
+def gen_metamorphic(rng, n):
+    """pairs of requests in one history: a request and the same request with the objective function multiplied by +-2^j (answer and
+    every evaluation abscissa must be the same), or with x measured in another unit (f(x / 2^j) on [2^j a, 2^j b], accuracy 2^j acc: answer
+    and abscissae must be 2^j times those of the first).  Powers of two: on doubles both relations are exact as long as nothing under- or
+    overflows (checked by the predicate on the values actually met)."""
+    cs = []
+    fams = [fam_powlaw, fam_poly, fam_saturating, fam_misc, fam_linear, fam_pwl]
+    for k in range(n):
+        a, b, root, name, params, fx = rng.choice(fams)(rng)
+        if not (a < b) or not all(math.isfinite(v) for v in [a, b] + list(params)): continue
+        f, _ = parse_fexpr(fx.split(), 0)
+        if classify(f, a, b)[0] not in ("zero", "opp"): continue
+        acc = pick_acc(rng, root, a, b)
+        if rng.random() < 0.5: a, b = b, a
+        A = req_text(a, b, acc, name, params, fx)
+        if k % 2 == 0:
+            Ks = [rng.choice([-1.0, 1.0]) * 2.0 ** rng.choice([0, 1, -1, rng.randint(-200, 200), rng.randint(-60, 60)]) for _ in range(rng.choice([1, 2]))]
+            if Ks[0] == 1.0: Ks[0] = -1.0
+            seq = [A] + [req_text(a, b, acc, "img-" + name, params, f"* {C(K)} {fx}") for K in Ks]
+            cs.append(Case(f"seq {len(seq)} " + " ".join(seq), ("seq", "meta-fscale")))
+        else:
+            c = 2.0 ** rng.choice([1, -1, rng.randint(-200, 200), rng.randint(-40, 40), rng.randint(-40, 40)])
+            if c == 1.0: c = 4.0
+            fxs = " ".join(f"/ x {C(c)}" if t == "x" else t for t in fx.split())
+            if not all(math.isfinite(v) and safe_mag(v) for v in (c * a, c * b, c * acc)): continue
+            B = req_text(c * a, c * b, c * acc, "img-" + name, params, fxs)
+            cs.append(Case(f"seq 2 {A} {B}", ("seq", "meta-xscale")))
+    return cs
+
+
 def generate(rng, tier):
     cs = []
     big = tier != "quick"
@@ -660,6 +832,10 @@ def generate(rng, tier):
     cs += gen_midpoint_overflow(rng, 60 if big else 6)
     # third strengthening pass: the matrix of end-value kinds with NaN and exact zeros (+0, -0), NaN abscissae
     cs += gen_end_matrix(rng, 4000 if big else 260)
+    # fourth pass: the boundary of the stopping test, step-like functions with the transition at the far end of the final bracket
+    cs += gen_stop_boundary(rng, 12000 if big else 700, 4000 if big else 200)
+    # fifth pass: metamorphic pairs (scaling of the objective function, unit of x)
+    cs += gen_metamorphic(rng, 4000 if big else 240)
     return cs
 
 
@@ -766,12 +942,38 @@ def check_returned(op, req, calls):
             d = ""
             if fam in ("powlaw",): d = f" (root {params[1] ** (1 / params[0])!r})"
             out.append((op + (":accuracy-maxiter" if w == "1" else ":accuracy") + cls_r, f"no sign change or zero of f within acc = {acc!r} of the returned {x!r}{d}: f = {vals[:3]!r} at x-acc, x, x+acc" + (f" (returned after the maximum number of iterations, {(n - 3) // 2}, with a warning)" if w == "1" else "")))
+        # the cost (C02_evaluation_count): every pass at least halves the bracket, so a bracket narrower than acc * 2^N is answered after
+        # at most 2 + 2N evaluations.  On doubles a pass leaves at most half the width plus one spacing of doubles at the bracket, which sums to
+        # less than 2 spacings at the returned point: for acc >= 40 spacings, 0.9 acc instead of acc absorbs it a priori (one more pass at most).
+        if w != "1" and acc >= 40 * 2.0 ** -52 * abs(x) and acc >= 40 * 2.0 ** -1022:
+            wd = 0.5 * hi - 0.5 * lo; N = 1
+            while not (wd < 0.9 * acc) and N < 2300: wd *= 0.5; N += 1
+            if n > 2 + 2 * N: out.append((op + ":evaluation-count" + cls_r, f"{n} evaluations for a bracket of width {hi - lo!r} and accuracy {acc!r}: more than 2 + 2*{N} (every pass must at least halve the bracket)"))
         if fam == "linear" and len(tr) >= 4:
             m, q = params; root = -q / m
             # first Ridder point is the root up to rounding: abscissa arithmetic ~10 eps X, function values eps(|m|X+|q|)/|m|; factor ~3 margin
             tol = 32 * EPS * (max(abs(lo), abs(hi)) + abs(root)) + 5e-324
             if abs(tr[3] - root) > tol: out.append((op + ":linear-exact", f"linear function: first Ridder point {tr[3]!r} differs from the root {root!r} by more than rounding ({tol!r})"))
             if abs(x - root) > tol + (acc if n > 4 else 0): out.append((op + ":linear-exact-result", f"linear function: returned {x!r}, root {root!r}"))
+    return out
+
+
+def check_metamorphic(c, reqs, calls):
+    """histories made of a request and its images under scaling of the objective function / change of the unit of x"""
+    out = []
+    if "meta-fscale" in c.tags:
+        a, b, acc, fam, params, f, fx, _ = reqs[0]; x0, w0, n0, t0 = calls[0]
+        for k in range(1, len(reqs)):
+            fk = reqs[k][5]; K = tokf(reqs[k][6][2])
+            if not all(safe_mag(f(u)) and safe_mag(fk(u)) and fk(u) == K * f(u) for u in t0): continue      # exact scaling of every value met
+            xk, wk, nk, tk = calls[k]
+            if not (hx(xk) == hx(x0) and wk == w0 and [hx(u) for u in tk] == [hx(u) for u in t0]):
+                out.append(("seq:scale-invariance", f"the objective function multiplied by {K!r} is answered {xk!r} after {nk} evaluations, the function itself {x0!r} after {n0} (same bracket and accuracy)"))
+    if "meta-xscale" in c.tags and len(reqs) == 2:
+        cc = reqs[1][2] / reqs[0][2]; (x0, w0, n0, t0), (x1, w1, n1, t1) = calls
+        if all(safe_mag(u) and safe_mag(cc * u) for u in t0 + t1 + [x0, reqs[0][2]]) and all(safe_mag(reqs[0][5](u)) for u in t0):
+            if not (hx(x1) == hx(cc * x0) and w1 == w0 and [hx(u) for u in t1] == [hx(cc * u) for u in t0]):
+                out.append(("seq:unit-covariance", f"with x in units of 1/{cc!r} the answer is {x1!r} after {n1} evaluations, not {cc!r} times the answer {x0!r} ({n0} evaluations) of the original request"))
     return out
 
 
@@ -815,6 +1017,7 @@ def predicates(c, io):
                 out.append(("seq:history", f"request {k + 1} of the history repeats request {j + 1} but was answered {cl[0]!r} ({cl[2]} evaluations) instead of {calls[j][0]!r} ({calls[j][2]} evaluations)"))
             seen.setdefault(key, (k, sig))
             out += check_returned(op, rq, [cl])
+        out += check_metamorphic(c, reqs, calls)
         return out
     return out + check_returned(op, reqs[0], calls)
 
